@@ -25,6 +25,8 @@ func checkC06(c *Ctx) {
 	checkLockset(c)
 	c.rule("LOCK-atomic-fill", "read-through cache fill: storage read and cache insert happen in one critical section", 3)
 	checkAtomicFill(c)
+	c.rule("OWN-index-cache", "the fast-node cache is changed only by the read-through lookup and by Commit after the write", 3)
+	checkIndexCacheOwner(c, "OWN-index-cache")
 	c.rule("ORDER-root-probe", "lock-free root lookup probes the old key before the re-keyed key (mirror of the writer's save-new-then-delete-old)", 2)
 	checkRootProbeOrder(c)
 	scope := func(fn *ssa.Function) bool { return l.pkgPathOf(fn) == l.ModPath }
